@@ -29,7 +29,7 @@ inductive Op where
   | w (x z : Int) (seed : Nat) (len : Nat)
   | r (x z : Int)
   | e (x z : Int)
-  | p | l | c
+  | p | l | c | a
   | bad
 
 def parseOp (s : String) : Op :=
@@ -47,6 +47,7 @@ def parseOp (s : String) : Op :=
   | ["p"] => .p
   | ["l"] => .l
   | ["c"] => .c
+  | ["a"] => .a
   | _ => .bad
 
 /-! formatting shared by model and oracle -/
@@ -122,30 +123,57 @@ def resEq : Res ByteArray → Res ByteArray → Bool
   | .panic, .panic => true
   | _, _ => false
 
-/-- every other chunk reads from the image what it read before -/
-def imageGood (pre : Region) (idx : Option Nat) (img : ByteArray) : Bool :=
-  match load img with
-  | .ok st => (List.range 1024).all fun k =>
-      some k == idx ||
-        (let o := pre.offsets.get k
-         let o' := st.offsets.get k
-         if o == 0#32 && o' == 0#32 then true else resEq (readChunk img o') (readChunk pre.file o))
+def coordOf (k : Nat) : Int × Int := (((k % 32 : Nat) : Int), ((k / 32 : Nat) : Int))
+
+def isOkRes : Res ByteArray → Bool
+  | .ok _ => true
   | _ => false
 
-def crashCount (pre : Region) (idx : Option Nat) (ws : List (Nat × ByteArray)) (maxCuts : Nat) : Nat × Nat := Id.run do
+def allEq : List (Res ByteArray) → List (Res ByteArray) → Bool
+  | [], [] => true
+  | a :: as, b :: bs => resEq a b && allEq as bs
+  | _, _ => false
+
+/-- One crash image, examined like `crashCheck` of the harness: the image is re-opened and read in two orders on
+    the same Region (`runReads` threads the receiver): the chunk being written first and then every other
+    coordinate; and every other coordinate, the written chunk, every other coordinate again.
+    `expected` = what the other coordinates read before the write.  Returns (all others as before, written read ok). -/
+def imageCheck (expected : List (Res ByteArray)) (oc wc : List (Int × Int)) (img : ByteArray) : Bool × Bool :=
+  match load img with
+  | .ok st =>
+    let r1 := (runReads st (wc ++ oc)).1
+    let w1 := (r1.take wc.length).all isOkRes && !wc.isEmpty
+    let g1 := allEq (r1.drop wc.length) expected
+    let r2 := (runReads st (oc ++ wc ++ oc)).1
+    let n := oc.length
+    let g2 := allEq (r2.take n) expected && allEq (r2.drop (n + wc.length)) expected &&
+      (((r2.drop n).take wc.length).all isOkRes && !wc.isEmpty) == w1
+    (g1 && g2, w1)
+  | _ => (false, false)
+
+def crashCount (pre : Region) (idx : Option Nat) (ws : List (Nat × ByteArray)) (maxCuts : Nat) : Nat × Nat × Nat := Id.run do
+  let others := (List.range 1024).filter (fun k => some k != idx)
+  let oc := others.map coordOf
+  let wc := match idx with
+    | some k => [coordOf k]
+    | none => []
+  let expected := (runReads pre oc).1
   let mut cur := pre.file
-  let mut points := 1
-  let mut bad := if imageGood pre idx cur then 0 else 1
+  let mut points := 0
+  let mut bad := 0
+  let mut wok := 0
   let mut j := 0
+  let tally (r : Bool × Bool) (pbw : Nat × Nat × Nat) : Nat × Nat × Nat :=
+    (pbw.1 + 1, pbw.2.1 + (if r.1 then 0 else 1), pbw.2.2 + (if r.2 then 1 else 0))
+  let mut acc : Nat × Nat × Nat := tally (imageCheck expected oc wc cur) (0, 0, 0)
   for w in ws do
     for c in cutSet w.2.size j maxCuts do
-      points := points + 1
-      if !imageGood pre idx (put cur w.1 (w.2.extract 0 c)) then bad := bad + 1
+      acc := tally (imageCheck expected oc wc (put cur w.1 (w.2.extract 0 c))) acc
     cur := put cur w.1 w.2
-    points := points + 1
-    if !imageGood pre idx cur then bad := bad + 1
+    acc := tally (imageCheck expected oc wc cur) acc
     j := j + 1
-  return (points, bad)
+  points := acc.1; bad := acc.2.1; wok := acc.2.2
+  return (points, bad, wok)
 
 /-! the oracle's state: what the history says each chunk holds -/
 
@@ -246,6 +274,7 @@ def oracleStep (o : OState) (i : Nat) (op : Op) (obs : String) (pl : Option (Byt
       | none => o.fail s!"op {i}: pad gave {obs}"
     | _ => o.fail s!"op {i}: pad gave {obs}"
   | .l => if obs == "ok" then o else o.fail s!"op {i}: re-opening gave {obs}"
+  | .a => if obs == "ok" then o else o.fail s!"op {i}: re-opening the aged file gave {obs}"
   | .c => checkCheckpoint o i obs
   | .bad => o
 
@@ -283,10 +312,13 @@ def runHist (crash : Option Nat) (ops : List String) (obsL : List String) : Verd
           match crash with
           | none => pure (showRes res)
           | some mc =>
-            let (points, bad) := crashCount r (idx? x z) ws mc
+            let (points, bad, wok) := crashCount r (idx? x z) ws mc
             let w := joinOr "/" (ws.map fun w => s!"{w.1}:{w.2.size}")
-            pure s!"{showRes res};W={w};C={points}:{bad}"
-        | .r x z => pure (readObs (readSector r x z))
+            pure s!"{showRes res};W={w};C={points}:{bad}:{wok}"
+        | .r x z =>
+          let (res, r') := readSectorS r x z   -- the method's effect on the receiver (none) is part of the model
+          st := some r'
+          pure (readObs res)
         | .e x z => pure (match existSector r x z with
             | .ok true => "1" | .ok false => "0" | .err => "err" | .panic => "panic")
         | .p =>
@@ -295,6 +327,11 @@ def runHist (crash : Option Nat) (ops : List String) (obsL : List String) : Verd
           pure s!"ok:{r'.file.size}"
         | .l =>
           match load r.file with
+          | .ok r' => st := some r'; pure "ok"
+          | _ => st := none; pure "err"
+        | .a =>
+          if r.file.size < 8192 then st := none; pure "err" else
+          match load (ageFile r.file) with
           | .ok r' => st := some r'; pure "ok"
           | _ => st := none; pure "err"
         | .c => pure (checkpoint r)
@@ -307,8 +344,8 @@ def runHist (crash : Option Nat) (ops : List String) (obsL : List String) : Verd
       | [res, _, c] =>
         o := oracleStep o i op res pl
         match (c.drop 2).toString.splitOn ":" with
-        | [_, "0"] => pure ()
-        | [pts, bad] => o := o.fail s!"op {i}: {bad} of {pts} crash images damage another chunk"
+        | [_, "0", _] => pure ()
+        | [pts, bad, _] => o := o.fail s!"op {i}: {bad} of {pts} crash images damage another chunk (read in either order)"
         | _ => o := o.fail s!"op {i}: unreadable observation"
       | _ => o := o.fail s!"op {i}: unreadable observation {obs}"
     | _, _ => o := oracleStep o i op obs pl
